@@ -166,7 +166,9 @@ def cases(draw):
         "schedule": draw(st.lists(st.integers(0, 7), min_size=1, max_size=8)),
         "workers": draw(st.integers(1, 3)),
         "seed": draw(st.integers(0, 999)),
-        "optlib": draw(st.sampled_from(["random", "random", "random", "cmaes"])),
+        # (cmaes needs every method to have at least one hyper-parameter, which
+        # the parameter-free 'random' method has not)
+        "optlib": draw(st.sampled_from(["random", "random", "random", "cmaes"])) if "random" not in methods else "random",
     }
 
 
